@@ -39,7 +39,9 @@ META = {
             '- compositional semantics over an unbounded language. The converse inclusion (every accepted spelling has a value) '
             'is not armed: the patterns over-generate non-standard forms; thorough tier lists them as observations. Membership '
             'uses L+ (look-arounds succeed), so a word blocked only by a look-around is not seen. Japanese daiji (壱弐参) are '
-            'absent from both extractor and parser and are not in the lexicon.',
+            'absent from both extractor and parser and are not in the lexicon. C04.visible.phrase decides extraction of '
+            'about thirty listed composed numerals (es/fr/pt) as one match, not their value and not the merged extractors; '
+            'C04.visible.twin arms only accented-vs-stripped twins, not every map key.',
     'technique': 'table agreement: evaluated resource dictionaries vs an embedded reference lexicon; regex-language membership '
                  '(backtracking matcher over the pattern syntax tree) for extractor visibility',
 }
@@ -65,7 +67,7 @@ LEXICON = {
         'card': {'cero': 0, 'uno': 1, 'un': 1, 'una': 1, 'dos': 2, 'tres': 3, 'cuatro': 4, 'cinco': 5, 'seis': 6, 'siete': 7,
                  'ocho': 8, 'nueve': 9, 'diez': 10, 'once': 11, 'doce': 12, 'trece': 13, 'catorce': 14, 'quince': 15,
                  'dieciséis': 16, 'diecisiete': 17, 'dieciocho': 18, 'diecinueve': 19, 'veinte': 20, 'veintiuno': 21,
-                 'veintidós': 22, 'treinta': 30, 'cuarenta': 40, 'cincuenta': 50, 'sesenta': 60, 'setenta': 70, 'ochenta': 80,
+                 'veintiún': 21, 'veintidós': 22, 'treinta': 30, 'cuarenta': 40, 'cincuenta': 50, 'sesenta': 60, 'setenta': 70, 'ochenta': 80,
                  'noventa': 90, 'cien': 100, 'ciento': 100, 'doscientos': 200, 'trescientos': 300, 'cuatrocientos': 400,
                  'quinientos': 500, 'seiscientos': 600, 'setecientos': 700, 'ochocientos': 800, 'novecientos': 900,
                  'mil': 1000, 'millón': P6, 'millones': P6, 'billón': P12, 'billones': P12},
@@ -1262,3 +1264,237 @@ _run_before_key_order = run
 def run(chk):       # noqa: F811
     _run_before_key_order(chk)
     rule_key_order_and_cjk(chk)
+
+
+# ---------------------------------------------------------------------------------------------------------------
+# C04.visible.phrase (round 7): a COMPOSED standard numeral is extracted as one entity only if ONE pattern of the number
+# extractor matches the whole phrase.  BaseNumberExtractor.extract marks every matched character, cuts the marks into
+# maximal runs and emits a run only when a single match has exactly the run's start and length; matches that merely
+# overlap produce nothing.  So "phrase in L+ of some wired pattern (any tag)" is necessary for the phrase to be one
+# entity.  The phrases are written here independently of the repository (standard spellings with their integer; the
+# integer documents the phrase, the rule decides extraction only).  Cultures whose registered extractor overrides
+# `extract` (the merged extractors of en/de/nl/it glue adjacent matches) are exempt: there the clause is not necessary.
+# Not listed on purpose: fr 'mille cinq cents' / 'deux cents' (plural 'cents' is not accepted by the pinned patterns -
+# a separate upstream defect, reproduced against the real code, outside this rule's reference).
+
+PHRASES = {
+    'es-es': {'treinta y uno': 31, 'ciento cinco': 105, 'mil quinientos': 1500, 'dos mil veintiuno': 2021, 'veintiún mil': 21000,
+              'doscientos cincuenta mil': 250000, 'un millón doscientos mil': 1200000, 'tres millones quinientos mil': 3500000,
+              'novecientos noventa y nueve mil novecientos noventa y nueve': 999999},
+    'fr-fr': {'vingt et un': 21, 'quatre-vingt-dix-neuf': 99, 'cent cinq': 105, 'deux mille vingt et un': 2021,
+              'deux cent cinquante mille': 250000, 'un million deux cent mille': 1200000, 'trois millions cinq cent mille': 3500000},
+    'pt-br': {'vinte e um': 21, 'cento e cinco': 105, 'mil e quinhentos': 1500, 'dois mil e vinte e um': 2021,
+              'vinte mil e quinhentos': 20500, 'cem mil e um': 100001, 'um milhão e um': 1000001, 'um milhão e quinhentos': 1000500,
+              'um milhão duzentos mil': 1200000, 'um milhão duzentos e trinta mil': 1230000,
+              'um milhão e duzentos mil': 1200000, 'dois milhões e cinquenta mil': 2050000, 'três milhões e quinhentos mil': 3500000,
+              'vinte e cinco milhões e cem mil': 25100000, 'um bilhão e duzentos milhões': 1200000000,
+              'novecentos e noventa e nove mil novecentos e noventa e nove': 999999},
+    'en-us': {'one hundred and five': 105, 'one million two hundred thousand': 1200000},
+    'de-de': {'zweihundertfünfzig': 250, 'eine million zweihunderttausend': 1200000},
+    'it-it': {'centocinque': 105, 'un milione duecentomila': 1200000},
+    'nl-nl': {'tweehonderdvijftig': 250, 'een miljoen tweehonderdduizend': 1200000},
+}
+SPAN_EXTRACT_OWNER = 'recognizers_number.number.extractors.BaseNumberExtractor'
+
+
+def _pattern_site(ev, rv):
+    """(path, line) of the resource constant behind a ReVal named 'Resource.Name' (display only)"""
+    if rv.name and '.' in rv.name:
+        cn, _, an = rv.name.rpartition('.')
+        try:
+            c = ev.idx.resolve_class(rv.cls.mod, ast.parse(cn, mode='eval').body)
+        except SyntaxError:
+            c = None
+        if c is not None:
+            k, node = ev.idx.class_attr(c, an)
+            if node is not None:
+                return k.mod.rel, getattr(node, 'lineno', 0)
+    return rv.cls.mod.rel, rv.line
+
+
+def _never_matches(ev, rv):
+    """a ReVal whose pattern expression is `Resource.Name` with no such constant: constructing it raises, it never matches"""
+    try:
+        e = ast.parse(rv.expr, mode='eval').body
+    except SyntaxError:
+        return False
+    while isinstance(e, ast.Call) and e.args:
+        e = e.args[0]
+    if not (isinstance(e, ast.Attribute) and isinstance(e.value, (ast.Name, ast.Attribute))):
+        return False
+    c = ev.idx.resolve_class(rv.cls.mod, e.value)
+    return c is not None and ev.idx.class_attr(c, e.attr)[1] is None
+
+
+def longest_prefix(member, phrase):
+    """(number of leading words, ReVal) of the longest word-prefix of `phrase` some pattern accepts"""
+    words = phrase.split(' ')
+    for n in range(len(words) - 1, 0, -1):
+        hit = member.accepts(' '.join(words[:n]))
+        if hit is not None:
+            return n, hit
+    return 0, None
+
+
+def rule_phrases(chk):
+    ev = Ev()
+    idx = ev.idx
+    chk.rule('C04.visible.phrase', 'a composed standard numeral is matched as a whole by one pattern of the registered number extractor '
+                                   '(BaseNumberExtractor.extract emits a run of matched characters only when a single match spans it)',
+             floor=20, control=True)
+    owner = idx.cls(SPAN_EXTRACT_OWNER)
+    if 'extract' not in owner.methods:
+        raise AnalysisError('anchor vanished: BaseNumberExtractor.extract')
+    chk.consulted(owner.mod.path)
+    chk.assume('BaseNumberExtractor.extract emits a maximal run of matched characters only if one match has the run\'s start and length')
+    regs = number_registrations(ev)
+    done, armed = set(), 0
+    for nr in regs:
+        code = nr.reg.culture
+        lexcode = SAME_LEXICON.get(code, code)
+        if nr.reg.model_cls.name != 'NumberModel' or lexcode not in PHRASES or nr.extractor_cls.qual in done:
+            continue
+        done.add(nr.extractor_cls.qual)
+        ext = nr.extractor_cls
+        k, fn = idx.find_method(ext, 'extract')
+        if fn is None:
+            raise AnalysisError('%s: registered extractor %s has no extract method' % (code, ext.name))
+        if k.qual != owner.qual:
+            chk.exempt('C04.visible.phrase', ext.mod.path, '%s: %s.extract' % (code, ext.name),
+                       'extract is defined by %s, which glues adjacent matches: a single spanning match is not necessary' % k.name,
+                       '%d phrases not armed' % len(PHRASES[lexcode]))
+            continue
+        cl = extractor_closure(ev, ext)
+        for rv in cl:
+            chk.consulted(rv.cls.mod.path)
+        usable = [rv for rv in cl if rv.kind == 'resource' and isinstance(rv.pattern, str)]
+        # 'format' patterns are generated from digit-group templates (_generate_format_regex): they contain no letters
+        opaque = [rv for rv in cl if rv not in usable and rv.kind != 'format' and not _never_matches(ev, rv)]
+        mem = Member(usable)
+        if not usable:
+            raise AnalysisError('%s: no evaluable pattern reachable from %s' % (code, ext.name))
+        for phrase, value in PHRASES[lexcode].items():
+            hit = mem.accepts(phrase)
+            if hit is None and (opaque or mem.unanalysable):
+                raise AnalysisError('%s: %r is accepted by no readable pattern of %s, but %s cannot be read: undecided'
+                                    % (code, phrase, ext.name, [rv.name or rv.expr for rv in opaque] + mem.unanalysable))
+            msg = ''
+            if hit is None:
+                n, near = longest_prefix(mem, phrase)
+                if near is not None:
+                    p_, l_ = _pattern_site(ev, near)
+                    msg = '; the longest prefix one pattern accepts is %r (%s, %s:%d)' % (' '.join(phrase.split(' ')[:n]), near.name, p_, l_)
+            armed += 1
+            chk.judge(hit is not None, 'C04.visible.phrase', ext.mod.path, '%s: %r' % (ext.name, phrase),
+                      '%s: %r (%d) matched as a whole by one wired pattern: %s' % (code, phrase, value, hit is not None),
+                      '%s: the standard numeral %r (%d) is matched as a whole by none of the %d patterns %s wires%s: the partial matches '
+                      'overlap without one spanning the run, so BaseNumberExtractor.extract emits no entity for it'
+                      % (code, phrase, value, len(usable), ext.name, msg), usable[0].line)
+    if not armed:
+        raise AnalysisError('C04.visible.phrase: no culture whose registered number extractor uses BaseNumberExtractor.extract')
+    t = rx.parse('(um|dois)(\\s+milh[ãa]o)?(\\s+e\\s+(cem|duzentos))?|(cem|duzentos)(\\s+mil)?')
+    chk.control('C04.visible.phrase', rx.matches(t, 'um milhão e duzentos') and rx.matches(t, 'duzentos mil')
+                and not rx.matches(t, 'um milhão e duzentos mil'))
+
+
+_run_before_phrases = run
+
+
+def run(chk):       # noqa: F811
+    _run_before_phrases(chk)
+    rule_phrases(chk)
+
+
+# ---------------------------------------------------------------------------------------------------------------
+# C04.visible.twin (round 7): the parser maps list many words twice - with their diacritics (the standard spelling:
+# 'veintiún', 'dieciséis', 'três') and stripped of them (tolerated sloppy typing) - with one value.  Where the extractor
+# accepts the stripped twin in a context (alone, or after the culture's word for one / two), it must accept the standard
+# accented spelling in the same context: otherwise the grammar lost exactly the standard form of a number it still
+# recognises (a character class [uú] 'tidied' to u).  Only this direction is armed (the standard form is the one the
+# property quantifies over); twins that are both invisible are latent table entries and are not reported.
+
+import unicodedata      # noqa: E402
+
+
+def strip_marks(w):
+    return ''.join(ch for ch in unicodedata.normalize('NFD', w) if unicodedata.category(ch) != 'Mn')
+
+
+def twin_failures(member, twins, ones):
+    """[(accented, stripped, context)] where the stripped twin is accepted in a context and the accented one is not,
+    and the set of accented keys whose stripped twin is accepted at all (armed)"""
+    out, n = [], set()
+    for acc, plain in twins:
+        for ctx in ['%s'] + ['%s %%s' % o for o in ones]:
+            if member.accepts(ctx % plain) is not None:
+                n.add(acc)
+                if member.accepts(ctx % acc) is None:
+                    out.append((acc, plain, ctx % acc))
+                break
+    return out, n
+
+
+def rule_twins(chk):
+    ev = Ev()
+    chk.rule('C04.visible.twin', 'a map key with diacritics whose stripped twin (same value) the extractor accepts is accepted too',
+             floor=6, control=True)
+    regs = number_registrations(ev)
+    by_culture = {}
+    for nr in regs:
+        by_culture.setdefault(nr.reg.culture, {})[nr.reg.model_cls.name] = nr
+    done = set()
+    for code in sorted(LEXICON):
+        pair = by_culture.get(code, {})
+        if 'NumberModel' not in pair or 'OrdinalModel' not in pair:
+            raise AnalysisError('no NumberModel / OrdinalModel registration for culture %s' % code)
+        ones = [w for w, v in LEXICON[code]['card'].items() if v in (1, 2) and ' ' not in w]
+        for nr, slot_name in ((pair['NumberModel'], 'cardinal_number_map'), (pair['OrdinalModel'], 'ordinal_number_map')):
+            key = (nr.config_cls.qual, nr.extractor_cls.qual, slot_name)
+            if key in done:
+                continue
+            done.add(key)
+            sl = slot(ev, nr.config_cls, slot_name)
+            if not isinstance(sl.value, dict):
+                raise AnalysisError('%s.%s wiring not evaluable (%s)' % (nr.config_cls.name, slot_name, sl.origin))
+            twins = sorted((k, strip_marks(k)) for k in sl.value
+                           if isinstance(k, str) and strip_marks(k) != k and sl.value.get(strip_marks(k)) == sl.value[k])
+            cl = extractor_closure(ev, nr.extractor_cls)
+            usable = [rv for rv in cl if rv.kind == 'resource' and isinstance(rv.pattern, str)]
+            if not usable:
+                raise AnalysisError('%s: no evaluable pattern reachable from %s' % (code, nr.extractor_cls.name))
+            mem = Member(usable)
+            opaque = [rv.name or rv.expr for rv in cl if rv not in usable and rv.kind != 'format' and not _never_matches(ev, rv)]
+            fails, armed = twin_failures(mem, twins, ones)
+            if fails and (opaque or mem.unanalysable):
+                raise AnalysisError('%s: %r is accepted by no readable pattern of %s, but %s cannot be read: undecided'
+                                    % (code, fails[0][2], nr.extractor_cls.name, opaque + mem.unanalysable))
+            rc, _n = dict_node_of(ev, sl.cls.mod, sl.expr)
+            path = rc.mod.path if rc is not None else sl.cls.mod.path
+            chk.consulted(path)
+            failed = {a for a, _p, _c in fails}
+            for acc, plain in twins:
+                if acc in failed or acc not in armed:
+                    continue        # both twins invisible: a latent table entry, nothing to compare
+                chk.ok('C04.visible.twin', path, '%s[%r]' % (sl.origin, acc), '%s: %r and %r (%r) both accepted by %s'
+                       % (code, acc, plain, sl.value[acc], nr.extractor_cls.name))
+            for acc, plain, phrase in fails:
+                hit = mem.accepts(phrase.replace(acc, plain))
+                p_, l_ = _pattern_site(ev, hit) if hit is not None else (path, sl.line)
+                chk.bad('C04.visible.twin', path, '%s[%r]' % (sl.origin, acc),
+                        '%s: %r not accepted, %r accepted by %s' % (code, phrase, phrase.replace(acc, plain), nr.extractor_cls.name),
+                        '%s: %s values %r and its stripped twin %r alike (%r); the patterns of %s accept %r (%s, %s:%d) but none accepts '
+                        'the standard accented spelling %r: the extractor cannot see it' % (
+                            code, sl.origin, acc, plain, sl.value[acc], nr.extractor_cls.name, phrase.replace(acc, plain),
+                            hit.name if hit is not None else '?', p_, l_, phrase), l_ if hit is not None else sl.line)
+    t = Member([])
+    t.trees = [('control', rx.parse('veinti(d[oó]s|un[oa]?)'))]
+    chk.control('C04.visible.twin', twin_failures(t, [('veintiún', 'veintiun'), ('veintidós', 'veintidos')], [])[0]
+                == [('veintiún', 'veintiun', 'veintiún')])
+
+
+_run_before_twins = run
+
+
+def run(chk):       # noqa: F811
+    _run_before_twins(chk)
+    rule_twins(chk)
